@@ -29,6 +29,7 @@ DEFAULT_CFG = {
     "max_tr": 3,
     "acyclic": False,
     "items_join_target": True,
+    "pub_ctx": True,  # publishes may copy another context variable
 }
 
 
@@ -78,6 +79,8 @@ def wf_ir(draw, c=None):
                 var = draw(st.sampled_from(POOL))
                 site[0] += 1
                 kind = draw(st.integers(0, 5))
+                if kind == 4 and not c["pub_ctx"]:
+                    kind = 0
                 if kind <= 2:
                     val = "p%d@%s" % (site[0], tname)
                 elif kind == 3:
@@ -251,6 +254,90 @@ def scenario(draw, c=None, flags=None, p_fail=None, abend=True, max_choices=60, 
         "ir": ir,
         "inputs": {},
         "outcomes": draw(outcomes(ir, p_fail=p_fail, abend=abend, fixed=fixed_outcomes)),
+        "choices": draw(choices(max_choices)),
+        "flags": dict(flags or {}),
+        "style": draw(st.integers(0, 3)),
+        "controls": sorted(ctl),
+    }
+
+
+# ----------------------------------------------------------------------------- directed templates
+
+
+@st.composite
+def fork_join_ir(draw, items=False, retry=False, split=None):
+    """Directed shape: [optional split upstream ->] fork of 2..5 branches (length 1..2) into a join
+    (all / N), branches that transition into the join on success, on failure (remediated), always, by
+    result, twice, or never; the join optionally retries / iterates; a tail task follows."""
+    lng = draw(st.sampled_from([lang.YAQL, lang.JINJA]))
+    k = draw(st.integers(2, 5))
+    tasks = {}
+    fork_targets = []
+    J = "j"
+    for b in range(k):
+        ln = draw(st.sampled_from([1, 1, 2]))
+        chain = ["b%d_%d" % (b, i) for i in range(ln)]
+        fork_targets.append(chain[0])
+        for i, nm in enumerate(chain):
+            t = {"action": "core.act", "next": [], "input": {"who": nm}}
+            if i < ln - 1:
+                t["next"].append({"when": E(["true"], lng), "do": [chain[i + 1]], "publish": []})
+            else:
+                mode = draw(st.sampled_from(["always", "always", "succeeded", "succeeded", "failed", "completed", "code", "never", "twice", "handler"]))
+                pub = [[draw(st.sampled_from(POOL)), "pub@%s" % nm]] if draw(st.booleans()) else []
+                if mode == "always":
+                    t["next"].append({"when": E(["true"], lng), "do": [J], "publish": pub})
+                elif mode in ("succeeded", "failed", "completed"):
+                    t["next"].append({"when": E([mode], lng), "do": [J], "publish": pub})
+                elif mode == "code":
+                    t["next"].append({"when": E(["res_eq", "code", 200], lng), "do": [J], "publish": pub})
+                elif mode == "never":
+                    t["next"].append({"when": E(["res_eq", "code", 999], lng), "do": [J], "publish": pub})
+                elif mode == "twice":
+                    t["next"].append({"when": E(["succeeded"], lng), "do": [J], "publish": pub})
+                    t["next"].append({"when": E(["completed"], lng), "do": [J], "publish": []})
+                else:  # failure handler that does not lead to the join, success does
+                    t["next"].append({"when": E(["succeeded"], lng), "do": [J], "publish": pub})
+                    t["next"].append({"when": E(["failed"], lng), "do": ["noop"], "publish": []})
+            tasks[nm] = t
+    jt = {"action": "core.act", "input": {"who": J}, "next": [{"when": E(["succeeded"], lng), "do": ["tail"], "publish": [["z", "pub@j"]]}]}
+    jt["join"] = draw(st.one_of(st.just("all"), st.integers(1, k)))
+    if items and draw(st.booleans()):
+        jt["with"] = {"items": E(["lit", list(range(draw(st.integers(1, 3))))], lng), "keys": None}
+        c = draw(st.sampled_from([None, 1, 2]))
+        if c:
+            jt["with"]["concurrency"] = c
+        jt["input"]["it"] = E(["item"], lng)
+    if retry and draw(st.booleans()):
+        jt["retry"] = {"count": draw(st.integers(1, 2))}
+    tasks[J] = jt
+    tasks["tail"] = {"action": "core.act", "input": {"who": "tail"}, "next": []}
+    use_split = draw(st.booleans()) if split is None else split
+    if use_split:
+        # two roots both transition into `s`, which therefore runs once per arrival on its own route
+        tasks["r0"] = {"action": "core.act", "input": {"who": "r0"}, "next": [{"when": E(["true"], lng), "do": ["s"], "publish": [["x", "pub@r0"]]}]}
+        tasks["r1"] = {"action": "core.act", "input": {"who": "r1"}, "next": [{"when": E(["true"], lng), "do": ["s"], "publish": [["x", "pub@r1"]]}]}
+        tasks["s"] = {"action": "core.act", "input": {"who": "s"}, "next": [{"when": E(["true"], lng), "do": list(fork_targets), "publish": []}]}
+    else:
+        tasks["r0"] = {"action": "core.act", "input": {"who": "r0"}, "next": [{"when": E(["true"], lng), "do": list(fork_targets), "publish": [["x", "pub@r0"]]}]}
+    ir = {"vars": [[v, "init_" + v] for v in POOL], "tasks": tasks}
+    ir["output"] = [[v + "_out", E(["ctx", v], lng)] for v in POOL]
+    return ir
+
+
+@st.composite
+def directed_scenario(draw, ir_strategy, flags=None, controls=None, max_choices=60, p_fail=None):
+    ir = draw(ir_strategy)
+    if p_fail is None:
+        p_fail = draw(st.sampled_from([0.0, 0.1, 0.25, 0.4]))
+    ctl = []
+    for kind, mx in (controls or {}).items():
+        for _ in range(draw(st.integers(0, mx))):
+            ctl.append([draw(st.integers(1, 30)), kind])
+    return {
+        "ir": ir,
+        "inputs": {},
+        "outcomes": draw(outcomes(ir, p_fail=p_fail)),
         "choices": draw(choices(max_choices)),
         "flags": dict(flags or {}),
         "style": draw(st.integers(0, 3)),
